@@ -137,3 +137,41 @@ pub fn shdr64_k1() {
     assert!(count == n);
     kani::cover!(n == 1 && len % 64 != 0, "one entry and a ragged tail");
 }
+
+/// Positional use of the table iterator: after `s` calls of next(), `nth(m)` is the entry get(s+m) (None beyond the end), the
+/// following next() is get(s+m+1), `skip(m)` starts at get(m), and count()/last()/size-independent draining agree with len().
+/// (Iterator::nth, skip, count and last are provided methods today; an override must keep "the i-th item equals get(i)".)
+/// Bound: u32 entries (ELF32), 0..=3 whole entries + ragged tail (length 0..=15), s <= 2, m <= 3.
+#[kani::proof]
+#[kani::unwind(7)]
+pub fn iter_positional_u32() {
+    let (buf, len) = any_buf::<15>();
+    let data = &buf[..len];
+    let e = any_endian();
+    let t: ParsingTable<'_, AnyEndian, u32> = ParsingTable::new(e, Class::ELF32, data);
+    let n = t.len();
+    let s: usize = kani::any();
+    let m: usize = kani::any();
+    kani::assume(s <= 2 && m <= 3);
+    let mut it = t.iter();
+    let mut taken = 0usize;
+    while taken < s {
+        if it.next().is_none() {
+            break;
+        }
+        taken += 1;
+    }
+    if taken == s {
+        let got = it.nth(m);
+        assert!(got == t.get(s + m).ok());
+        if got.is_some() {
+            assert!(it.next() == t.get(s + m + 1).ok());
+        }
+    }
+    let mut sk = t.iter().skip(m);
+    assert!(sk.next() == t.get(m).ok());
+    assert!(t.iter().count() == n);
+    assert!(t.iter().last() == if n == 0 { None } else { t.get(n - 1).ok() });
+    kani::cover!(taken == s && s == 1 && m == 1 && n == 3, "nth(1) after one next() on a full table");
+    kani::cover!(taken == s && s + m >= n && n > 0, "nth past the end");
+}
